@@ -117,7 +117,7 @@ def replay_probe(r):
 vc.REPLAYERS['probe'] = replay_probe
 
 def replay_harness(r):
-    binary = build(r['source'], r.get('defs', []), variant=r.get('variant', 'plain'), header=r.get('header', 'shipped'), access=r.get('access', True))
+    binary = build(r['source'], r.get('defs', []), variant=r.get('variant', 'plain'), header=r.get('header', 'shipped'), access=r.get('access', True), extra=r.get('extra'))
     cmd = [binary] + r.get('args', []) + ['--replay=' + r.get('replay', '')]
     print(' '.join(cmd)); p = subprocess.run(cmd); return 1 if p.returncode else 0
 vc.REPLAYERS['harness'] = replay_harness
@@ -247,7 +247,11 @@ def check_c13(tier):
     V.assumptions = ['field values wider than %d bits are drawn from the alphabet {0,1,max,max-1,0xAA..,0x55..,every single-bit value, every single-zero value}; narrower fields use every value' % (16 if tier == 'thorough' else 11)]
     for h in header_variants():
         b = build('seqx_bitstream.cpp', [], header=h, access=False, extra=['-w'])
-        add_seqx(V, run_harness(b, ['--workers=%d' % NCPU] + (['--thorough'] if tier == 'thorough' else [])), 'bitstream/' + h, dict(source='seqx_bitstream.cpp', defs=[], header=h, access=False))
+        add_seqx(V, run_harness(b, ['--workers=%d' % NCPU] + (['--thorough'] if tier == 'thorough' else [])), 'bitstream/' + h, dict(source='seqx_bitstream.cpp', defs=[], header=h, access=False, extra=['-w']))
+    # other language standards / compilers / the debug define (the 2^32 bitWidth sweep is done once, above)
+    for v in ('cxx11', 'cxx20', 'clang-cxx11', 'debug'):
+        b = build('seqx_bitstream.cpp', [], variant=v, access=False, extra=['-w'])
+        add_seqx(V, run_harness(b, ['--workers=%d' % NCPU, '--skip-bitwidth'] + (['--thorough'] if tier == 'thorough' else [])), 'bitstream/' + v, dict(source='seqx_bitstream.cpp', defs=[], variant=v, access=False, extra=['-w'], args=['--skip-bitwidth']))
     return V.finish(rule='every cursor x width x value (see assumptions) x three prefix fillings; every pair of consecutive fields at the 8 byte offsets; closure over all write sequences for small capacities; every capacity 1..255; bitWidth for all 2^32 arguments. "states" counts distinct (cursor, content) stream states of the closures, "transitions" every verified write/argument')
 
 # =========================================================================== C20
@@ -260,10 +264,16 @@ def check_c20(tier):
         for lo, hi in ((1, 64), (65, 128), (129, 192), (193, 255)):
             jobs.append((('seqx_containers.cpp', ['VX_PART=1', 'VX_CLO=%d' % lo, 'VX_CHI=%d' % hi]), dict(header=h, extra=['-O1', '-w']), 'bitarray', h, lo, hi))
             jobs.append((('seqx_containers.cpp', ['VX_PART=2', 'VX_CLO=%d' % lo, 'VX_CHI=%d' % hi] + (['VX_STATIC_ARRAY_ITER'] if iter_ok else [])), dict(header=h, extra=['-O1', '-w']), 'arrays', h, lo, hi))
+    # the same under C++11 (the library has FFSM2_CONSTEXPR(11)/(14) code paths), C++20 and the project's debug define, on the capacity
+    # ranges where units and words change (1..64, 193..255)
+    for v in ('cxx11', 'cxx20', 'debug'):
+        for lo, hi in ((1, 64), (193, 255)):
+            jobs.append((('seqx_containers.cpp', ['VX_PART=1', 'VX_CLO=%d' % lo, 'VX_CHI=%d' % hi]), dict(variant=v, extra=['-O1', '-w']), 'bitarray', v, lo, hi))
+            jobs.append((('seqx_containers.cpp', ['VX_PART=2', 'VX_CLO=%d' % lo, 'VX_CHI=%d' % hi] + (['VX_STATIC_ARRAY_ITER'] if iter_ok else [])), dict(variant=v, extra=['-O1', '-w']), 'arrays', v, lo, hi))
     built = build_many([(j[0], j[1]) for j in jobs])
     for (a, kw, what, h, lo, hi), (b, err) in zip(jobs, built):
         if err: raise BuildFailed(err)
-        add_seqx(V, run_harness(b, ['--what=' + what, '--workers=%d' % min(NCPU, 8)] + (['--thorough'] if tier == 'thorough' else [])), '%s[%d..%d]/%s' % (what, lo, hi, h), dict(source='seqx_containers.cpp', defs=a[1], header=h, args=['--what=' + what]))
+        add_seqx(V, run_harness(b, ['--what=' + what, '--workers=%d' % min(NCPU, 8)] + (['--thorough'] if tier == 'thorough' else [])), '%s[%d..%d]/%s' % (what, lo, hi, h), dict(source='seqx_containers.cpp', defs=a[1], header=kw.get('header', 'shipped'), variant=kw.get('variant', 'plain'), extra=kw.get('extra'), args=['--what=' + what]))
     return V.finish(rule='BitArrayT<C>: closure over every reachable raw content for small C (expected exactly 2^C), bounded op sequences from seeds for every other C; arrays: per-capacity scripts for C = 1..255 and two element types')
 
 # =========================================================================== C16
